@@ -21,7 +21,7 @@ COQ_AGREE = 'pagree'
 COQ_SHARD = 40
 REPLAY_KIND = 'history'
 EXHAUSTIVE = {'quick': False, 'thorough': False}
-RULE = ('seeded random histories (3..45 operations) of create/get/select/alternate-id lookup/foreign-key traversal/join accessor/read/assign/set/sync/expire/destroy/'
+RULE = ('seeded random histories (3..45 operations) of create/get/select/alternate-id lookup/unique-index lookup/foreign-key traversal/join accessor/read/assign/set/sync/expire/destroy/'
         'drop-reference/cull/expireAll/pickle/unpickle over three classes on one sqlite connection, cache=True and cache=False, '
         'cullFrequency in {2,3,5,100}, cullFraction in {1,2,3}; mostly valid operations plus invalid values, duplicate keys, absent ids '
         'and stale handles. Non-trivial = some operation returned an object for a row the application already held; distinct = distinct operation list.')
@@ -29,7 +29,8 @@ EXPLANATION = ('Theorems over Model/Orm.v (unbounded histories, any cull configu
                'real SQLObject after every operation (outcome with identity tokens, SQL log, tables, passive object state, cache contents) + '
                'identity oracle on the implementation.')
 TRUSTED_BASE = L.TRUSTED_COMMON + [
-    'access paths covered by the model: get, select iteration, alternate-id lookup, unpickling, creation, foreign-key traversal and the '
+    'access paths covered by the model: get, select iteration, alternate-id lookup, unique-index lookup (DatabaseIndex(unique=True).get = '
+    'selectBy().getOne()), unpickling, creation, foreign-key traversal and the '
     'MultipleJoin accessor (Model/OrmPaths.v: compositions of read/select-ids with SQLObject.get). The foreign-key traversal is run through '
     'the real main.py _SO_foreignKey on the Int column a (what the generated getter of a ForeignKey column calls); the join through real '
     'MultipleJoin descriptors on column a. RelatedJoin/SingleJoin/SQL*Join accessors build their results with the same otherClass.get / '
@@ -41,8 +42,8 @@ TRUSTED_BASE = L.TRUSTED_COMMON + [
 ]
 PROFILE = L.profile(without=['clear', 'rawupdate', 'rawdelete'],
                     weights={'get': 16, 'select': 10, 'byalt': 6, 'drop': 10, 'cull': 5, 'expire': 2, 'expireall': 1,
-                             'destroy': 5, 'pickle': 5, 'unpickle': 6, 'fk': 9, 'join': 8},
-                    p_fault=0.25, fault_ops=('destroy', 'fk', 'join'), freqs=[2, 3, 5, 100])
+                             'destroy': 5, 'pickle': 5, 'unpickle': 6, 'fk': 9, 'join': 8, 'index': 7},
+                    p_fault=0.25, fault_ops=('destroy', 'fk', 'join', 'index'), freqs=[2, 3, 5, 100])
 
 
 def corpus():
@@ -68,6 +69,12 @@ def corpus():
                  ['fk', 1, 0], ['join', 0, 1, 1], ['join', 0, 0, None], ['fault', 0, ['join', 0, 1, 0]], ['fault', 1, ['fk', 2, 2]]]},
         {'cfg': {'cache': False, 'freq': 100, 'frac': 2},
          'ops': [['create', 2, [[1, 100], [0, 1]]], ['fk', 0, 2], ['join', 0, 2, 0], ['destroy', 0], ['fk', 1, 2], ['join', 1, 2, None]]},
+        # the unique-index lookup: the held instance comes back (culled or not, cache on or off), an absent key raises not-found
+        {'cfg': {'cache': True, 'freq': 2, 'frac': 1},
+         'ops': [['create', 0, [[1, 100]]], ['create', 0, [[1, 101]]], ['cull', 0], ['index', 0, 100], ['index', 0, 101, 'kw'],
+                 ['index', 0, 7], ['fault', 0, ['index', 0, 100]], ['destroy', 0], ['index', 0, 100], ['index', 0, 101]]},
+        {'cfg': {'cache': False, 'freq': 100, 'frac': 2},
+         'ops': [['create', 2, [[1, 100]]], ['index', 2, 100], ['drop', 0], ['index', 2, 100, 'kw'], ['destroy', 1], ['index', 2, 100]]},
         # cull moves a held object to the weak cache; it must come back
         {'cfg': {'cache': True, 'freq': 2, 'frac': 1},
          'ops': [['create', 0, [[1, 100]]], ['create', 0, [[1, 101]]], ['cull', 0], ['get', 0, 1], ['get', 0, 2], ['select', 0, None, 0]]},
